@@ -548,7 +548,6 @@ func (t *Taint) regexSink(ci ssa.CallInstruction, cc *ssa.CallCommon, path []str
 	}
 }
 
-
 // firstOfSplit: ia selects constant element 0 of a strings.Split result
 // under a guard on the number of elements: only the last element of a
 // split can carry the trailing delimiter.
